@@ -280,23 +280,6 @@ def modelResetStep (n : EName) (last : Bool) (tm : Option Mode) (headNone : Bool
   else if isName n.loc "html" then (if headNone then some (some .beforeHead) else some (some .afterHead))
   else none
 
-/-- the same iteration in the standard's words -/
-def specResetStep (n : Spec.TreeAlgo.Name) (last : Bool) (tm : Option Spec.TreeAlgo.Mode) (headNull : Bool) :
-    Option (Option Spec.TreeAlgo.Mode) :=
-  if (n.isHtml "td" || n.isHtml "th") && !last then some (some .inCell)
-  else if n.isHtml "tr" then some (some .inRow)
-  else if n.isHtml "tbody" || n.isHtml "thead" || n.isHtml "tfoot" then some (some .inTableBody)
-  else if n.isHtml "caption" then some (some .inCaption)
-  else if n.isHtml "colgroup" then some (some .inColumnGroup)
-  else if n.isHtml "table" then some (some .inTable)
-  else if n.isHtml "template" then some tm
-  else if n.isHtml "head" && !last then some (some .inHead)
-  else if n.isHtml "body" then some (some .inBody)
-  else if n.isHtml "frameset" then some (some .inFrameset)
-  else if n.isHtml "html" then (if headNull then some (some .beforeHead) else some (some .afterHead))
-  else if last then some (some .inBody)
-  else none
-
 theorem isName_comm (x : Str) (s : String) : isName x s = (x == s.toList) := BEq.comm
 
 theorem isHtml_eq (n : EName) (s : String) :
@@ -309,11 +292,11 @@ theorem isName_false {loc : Str} {s : String} (h : ¬ loc = s.toList) : isName l
 /-- the two step functions agree (`last` nodes that the model passes on end the loop: the rest of
 the stack is empty and the model's `[]` case answers "in body") -/
 theorem resetStep_eq (n : EName) (last : Bool) (tm : Option Mode) (headNone : Bool) :
-    specResetStep (toName n) last (tm.map toSpecMode) headNone
+    Spec.TreeAlgo.resetStep (toName n) last (tm.map toSpecMode) headNone
       = match modelResetStep n last tm headNone with
         | some r => some (r.map toSpecMode)
         | none => if last then some (some .inBody) else none := by
-  simp only [specResetStep, modelResetStep, isHtml_eq, isOneOf, List.any_cons, List.any_nil, Bool.or_false,
+  simp only [Spec.TreeAlgo.resetStep, modelResetStep, isHtml_eq, isOneOf, List.any_cons, List.any_nil, Bool.or_false,
     ← isName.eq_1]
   by_cases hns : (n.ns == nsHtml) = true
   · have hns' : (n.ns != nsHtml) = false := by simp [bne, hns]
@@ -352,5 +335,345 @@ theorem resetStep_eq (n : EName) (last : Bool) (tm : Option Mode) (headNone : Bo
   · have hns' : (n.ns != nsHtml) = true := by simpa [bne] using hns
     have hf : (n.ns == nsHtml) = false := by simpa using hns
     simp [hf, hns']
+
+
+theorem resetLoop_step (s : State) (node : Id) (rest : List Id) (len : Nat) (n : EName) (r : Mode)
+    (hq : Query (elemName (match len - 1 == 0, s.contextElem with | true, some ctx => ctx | _, _ => node)) s n)
+    (h : match modelResetStep n (len - 1 == 0) s.templateModes.getLast? s.headElem.isNone with
+         | some (some m) => m = r
+         | some none => False
+         | none => Query (resetLoop rest (len - 1)) s r) :
+    Query (resetLoop (node :: rest) len) s r := by
+  simp only [resetLoop]
+  refine query_getS_bind (fun tr => ?_)
+  refine query_bind hq ?_
+  simp only [modelResetStep] at h
+  simp only [withTr]
+  by_cases c0 : (n.ns != nsHtml) = true
+  · simp only [if_pos c0] at h ⊢; exact h
+  simp only [if_neg c0] at h ⊢
+  by_cases c1 : (isOneOf n.loc ["td", "th"] && !(len - 1 == 0)) = true
+  · simp only [if_pos c1] at h ⊢; subst h; exact query_pure _ _
+  simp only [if_neg c1] at h ⊢
+  by_cases c2 : (isName n.loc "tr") = true
+  · simp only [if_pos c2] at h ⊢; subst h; exact query_pure _ _
+  simp only [if_neg c2] at h ⊢
+  by_cases c3 : (isOneOf n.loc ["tbody", "thead", "tfoot"]) = true
+  · simp only [if_pos c3] at h ⊢; subst h; exact query_pure _ _
+  simp only [if_neg c3] at h ⊢
+  by_cases c4 : (isName n.loc "caption") = true
+  · simp only [if_pos c4] at h ⊢; subst h; exact query_pure _ _
+  simp only [if_neg c4] at h ⊢
+  by_cases c5 : (isName n.loc "colgroup") = true
+  · simp only [if_pos c5] at h ⊢; subst h; exact query_pure _ _
+  simp only [if_neg c5] at h ⊢
+  by_cases c6 : (isName n.loc "table") = true
+  · simp only [if_pos c6] at h ⊢; subst h; exact query_pure _ _
+  simp only [if_neg c6] at h ⊢
+  by_cases c7 : (isName n.loc "template") = true
+  · simp only [if_pos c7] at h ⊢
+    cases hg : s.templateModes.getLast? with
+    | none => simp only [hg] at h
+    | some m => simp only [hg] at h ⊢; subst h; exact query_pure _ _
+  simp only [if_neg c7] at h ⊢
+  by_cases c8 : (isName n.loc "head") = true
+  · simp only [if_pos c8] at h ⊢
+    by_cases cl : (!(len - 1 == 0)) = true
+    · simp only [if_pos cl] at h ⊢; subst h; exact query_pure _ _
+    · simp only [if_neg cl] at h ⊢; exact h
+  simp only [if_neg c8] at h ⊢
+  by_cases c9 : (isName n.loc "body") = true
+  · simp only [if_pos c9] at h ⊢; subst h; exact query_pure _ _
+  simp only [if_neg c9] at h ⊢
+  by_cases c10 : (isName n.loc "frameset") = true
+  · simp only [if_pos c10] at h ⊢; subst h; exact query_pure _ _
+  simp only [if_neg c10] at h ⊢
+  by_cases c11 : (isName n.loc "html") = true
+  · simp only [if_pos c11] at h ⊢
+    cases hh : s.headElem with
+    | none => simp only [hh, Option.isNone_none, if_true] at h ⊢; subst h; exact query_pure _ _
+    | some v => simp only [hh, Option.isNone_some, Bool.false_eq_true, if_false] at h ⊢; subst h; exact query_pure _ _
+  simp only [if_neg c11] at h ⊢
+  exact h
+
+
+theorem toSpecMode_inj {a b : Mode} (h : toSpecMode a = toSpecMode b) : a = b := by
+  cases a <;> cases b <;> first | rfl | (simp [toSpecMode] at h)
+
+theorem len_last (rest : List Id) : ((rest.length + 1) - 1 == 0) = rest.isEmpty := by
+  cases rest <;> simp
+
+/-- the fragment context element, as the sink names it -/
+def CtxOk (s : State) (cn : Option EName) : Prop :=
+  match s.contextElem, cn with
+  | some c, some n => s.dom.elemName c = .ok (n.ns, n.loc)
+  | none, none => True
+  | _, _ => False
+
+/-- **(d)** `reset_insertion_mode` answers what the standard's "reset the insertion mode
+appropriately" answers, on every stack (fragment case, template modes, head pointer included);
+`l` is the stack with the current node first -/
+theorem resetLoop_query (s : State) (nm : Id → EName) (cn : Option EName) (hctx : CtxOk s cn) (m : Mode) :
+    ∀ (l : List Id), NamesOk s l nm →
+      Spec.TreeAlgo.resetInsertionMode (cn.map toName) s.headElem.isNone (s.templateModes.getLast?.map toSpecMode)
+        (l.map (fun h => toName (nm h))) = some (toSpecMode m) →
+      Query (resetLoop l l.length) s m := by
+  intro l
+  induction l with
+  | nil =>
+    intro _ hspec
+    simp only [List.map_nil, Spec.TreeAlgo.resetInsertionMode, Option.some.injEq] at hspec
+    have : m = .inBody := toSpecMode_inj (by rw [← hspec]; rfl)
+    subst this
+    exact query_pure _ _
+  | cons node rest ih =>
+    intro hn hspec
+    have ih' := ih (fun x hx => hn x (List.mem_cons_of_mem _ hx))
+    simp only [List.length_cons]
+    -- the node under inspection and its name
+    obtain ⟨n, hq, hnode⟩ : ∃ n : EName,
+        Query (elemName (match (rest.length + 1) - 1 == 0, s.contextElem with | true, some ctx => ctx | _, _ => node)) s n ∧
+        toName n = (if rest.isEmpty then (cn.map toName).getD (toName (nm node)) else toName (nm node)) := by
+      rw [len_last]
+      cases hl : rest.isEmpty with
+      | false => exact ⟨nm node, query_elemName (hn node (List.mem_cons_self ..)), by simp⟩
+      | true =>
+        unfold CtxOk at hctx
+        cases hc : s.contextElem with
+        | none =>
+          cases cn with
+          | none => exact ⟨nm node, query_elemName (hn node (List.mem_cons_self ..)), by simp⟩
+          | some c => simp [hc] at hctx
+        | some c =>
+          cases cn with
+          | none => simp [hc] at hctx
+          | some c' =>
+            simp only [hc] at hctx
+            exact ⟨c', query_elemName hctx, by simp⟩
+    refine resetLoop_step s node rest (rest.length + 1) n m hq ?_
+    simp only [List.map_cons, Spec.TreeAlgo.resetInsertionMode, List.isEmpty_map] at hspec
+    rw [← hnode, resetStep_eq] at hspec
+    rw [len_last]
+    cases hstep : modelResetStep n rest.isEmpty s.templateModes.getLast? s.headElem.isNone with
+    | some r =>
+      simp only [hstep, Option.getD_some] at hspec
+      cases r with
+      | none => simp at hspec
+      | some m0 =>
+        simp only [Option.map_some, Option.some.injEq] at hspec
+        exact toSpecMode_inj hspec
+    | none =>
+      simp only [hstep] at hspec
+      cases hl : rest.isEmpty with
+      | true =>
+        simp only [hl, if_true, Option.getD_some, Option.some.injEq] at hspec
+        have : m = .inBody := toSpecMode_inj (by rw [← hspec]; rfl)
+        subst this
+        have : rest = [] := List.isEmpty_iff.mp hl
+        subst this
+        exact query_pure _ _
+      | false =>
+        simp only [hl, Bool.false_eq_true, if_false, Option.getD_none] at hspec
+        have := ih' hspec
+        simpa using this
+
+/-- `reset_insertion_mode()` itself (the stack is stored with the current node last) -/
+theorem resetInsertionMode_query (s : State) (nm : Id → EName) (cn : Option EName) (hctx : CtxOk s cn)
+    (hn : NamesOk s s.openElems nm) (m : Mode)
+    (hspec : Spec.TreeAlgo.resetInsertionMode (cn.map toName) s.headElem.isNone
+      (s.templateModes.getLast?.map toSpecMode) (s.openElems.reverse.map (fun h => toName (nm h))) = some (toSpecMode m)) :
+    Query resetInsertionMode s m := by
+  unfold resetInsertionMode
+  refine query_getS_bind (fun tr => ?_)
+  have hn' : NamesOk s s.openElems.reverse nm := fun h hh => hn h (List.mem_reverse.mp hh)
+  have := resetLoop_query s nm cn hctx m s.openElems.reverse hn' hspec
+  simpa [withTr] using this
+
+
+/-! ### (e) the tree construction dispatcher -/
+
+def tokKind : Token → Spec.TreeAlgo.TokenKind
+  | .tag t => if t.kind == .startTag then .startTag t.name else .endTag t.name
+  | .comment _ => .comment
+  | .chars _ _ => .character
+  | .nullChar => .character
+  | .eof => .eof
+
+theorem mathmlTIP_eq (n : EName) :
+    mathmlTextIntegrationPoint n = Spec.TreeAlgo.isMathmlTextIntegrationPoint (toName n) := rfl
+
+theorem svgHIP_eq (n : EName) :
+    svgHtmlIntegrationPoint n
+      = ((toName n).ns == Spec.TreeAlgo.nsSvg && Spec.TreeTables.svgHtmlIntegrationPoint.any (fun s => s.toList == (toName n).loc)) := rfl
+
+/-- the adjusted current node (`l` = the stack, current node first) -/
+theorem adjustedCurrentNode_query (s : State) (c : Id)
+    (h : Spec.TreeAlgo.adjustedCurrentNode s.openElems.reverse s.contextElem = some c) :
+    Query adjustedCurrentNode s c := by
+  unfold adjustedCurrentNode
+  refine query_getS_bind (fun tr => ?_)
+  simp only [withTr]
+  have hlast : ∀ x, s.openElems.reverse.head? = some x → Query currentNode s x := by
+    intro x hx
+    unfold currentNode
+    refine query_getS_bind (fun tr => ?_)
+    have : s.openElems.getLast? = some x := by simpa [List.head?_reverse] using hx
+    simp only [withTr, this]
+    exact query_pure _ _
+  cases hr : s.openElems.reverse with
+  | nil => simp [Spec.TreeAlgo.adjustedCurrentNode, hr] at h
+  | cons cur rest =>
+    have hlen : s.openElems.length = rest.length + 1 := by
+      have := congrArg List.length hr; simpa using this
+    cases rest with
+    | nil =>
+      have h1 : (s.openElems.length == 1) = true := by simp [hlen]
+      simp only [h1, if_true]
+      cases hc : s.contextElem with
+      | some ctx =>
+        simp only [Spec.TreeAlgo.adjustedCurrentNode, hr, hc, Option.some.injEq] at h
+        subst h; exact query_pure _ _
+      | none =>
+        simp only [Spec.TreeAlgo.adjustedCurrentNode, hr, hc, Option.some.injEq] at h
+        subst h; exact hlast _ (by simp [hr])
+    | cons x rest' =>
+      have h1 : (s.openElems.length == 1) = false := by simp [hlen]
+      simp only [h1, Bool.false_eq_true, if_false]
+      simp only [Spec.TreeAlgo.adjustedCurrentNode, hr, Option.some.injEq] at h
+      subst h; exact hlast _ (by simp [hr])
+
+theorem query_pure_eq {α : Type} {s : State} {a b : α} (h : a = b) : Query (pure a : M α) s b := h ▸ query_pure s a
+
+/-- the model's decision, as a function of the adjusted current node's name `n`, the sink's
+annotation-xml integration-point flag `ip` and the token -/
+def isForeignPure (tok : Token) (n : EName) (ip : Bool) : Bool :=
+  let isStart : Option Tag := match tok with
+    | .tag tg => if tg.kind == .startTag then some tg else none
+    | _ => none
+  let isChars : Bool := match tok with
+    | .chars _ _ => true | .nullChar => true | _ => false
+  if tok == .eof then false
+  else if n.ns == nsHtml then false
+  else if mathmlTextIntegrationPoint n &&
+      (isChars || (match isStart with | some tg => !isOneOf tg.name ["mglyph", "malignmark"] | none => false)) then false
+  else if svgHtmlIntegrationPoint n && (isChars || isStart.isSome) then false
+  else if n.ns == nsMathml && isName n.loc "annotation-xml" then
+    match isStart with
+    | some tg => if isName tg.name "svg" then false else !ip
+    | none => if isChars then !ip else true
+  else true
+
+theorem isForeign_query_pure (s : State) (tok : Token) (c : Id) (n : EName) (ip : Bool)
+    (hc : Spec.TreeAlgo.adjustedCurrentNode s.openElems.reverse s.contextElem = some c)
+    (hn : s.dom.elemName c = .ok (n.ns, n.loc))
+    (hip : s.dom.isMathmlAnnotationXmlIntegrationPoint c = .ok ip) :
+    Query (isForeign tok) s (isForeignPure tok n ip) := by
+  have hacn := adjustedCurrentNode_query s c hc
+  have hne : s.openElems.isEmpty = false := by
+    cases ho : s.openElems with
+    | nil => simp [ho, Spec.TreeAlgo.adjustedCurrentNode] at hc
+    | cons _ _ => rfl
+  have hname := query_elemName (s := s) hn
+  have hipq : Query (do let cur ← adjustedCurrentNode; pure (!(← sinkBool (.isMathmlAnnotationXmlIntegrationPoint cur)))) s (!ip) :=
+    query_bind hacn (query_bind (query_sinkBool_ip (s := s) hip) (query_pure _ _))
+  unfold isForeign isForeignPure
+  by_cases he : (tok == Token.eof) = true
+  · simp only [if_pos he]; exact query_pure _ _
+  simp only [if_neg he]
+  refine query_getS_bind (fun tr => ?_)
+  simp only [withTr, hne, Bool.false_eq_true, if_false]
+  refine query_bind hacn (query_bind hname ?_)
+  by_cases h1 : (n.ns == nsHtml) = true
+  · simp only [if_pos h1]; exact query_pure _ _
+  simp only [if_neg h1]
+  cases tok with
+  | eof => exact absurd rfl he
+  | comment t =>
+    simp only [Bool.false_or, Bool.and_false, Bool.false_eq_true, if_false, Option.isSome_none]
+    split <;> exact query_pure _ _
+  | nullChar =>
+    simp only [Bool.true_or, Bool.and_true, if_true]
+    split
+    · exact query_pure _ _
+    · split
+      · exact query_pure _ _
+      · split
+        · exact hipq
+        · exact query_pure _ _
+  | chars st t =>
+    simp only [Bool.true_or, Bool.and_true, if_true]
+    split
+    · exact query_pure _ _
+    · split
+      · exact query_pure _ _
+      · split
+        · exact hipq
+        · exact query_pure _ _
+  | tag t =>
+    by_cases hk : (t.kind == .startTag) = true
+    · simp only [if_pos hk, Bool.false_or, Option.isSome_some, Bool.and_true]
+      split
+      · exact query_pure _ _
+      · split
+        · exact query_pure _ _
+        · split
+          · split
+            · exact query_pure _ _
+            · exact hipq
+          · exact query_pure _ _
+    · simp only [if_neg hk, Bool.false_or, Option.isSome_none, Bool.and_false, Bool.false_eq_true, if_false]
+      split <;> exact query_pure _ _
+
+/-- the Boolean content of (e): the model's decision is the negation of the dispatcher's -/
+theorem isForeignPure_eq_spec (tok : Token) (n : EName) (ip : Bool) :
+    isForeignPure tok n ip = !Spec.TreeAlgo.useHtmlRules (some ⟨toName n, ip⟩) (tokKind tok) := by
+  have eX : ((toName n).ns == Spec.TreeAlgo.nsMathml && (toName n).loc == "annotation-xml".toList)
+      = (n.ns == nsMathml && isName n.loc "annotation-xml") := by rw [isName_comm]; rfl
+  have eA : ((toName n).ns == Spec.TreeAlgo.nsHtml) = (n.ns == nsHtml) := rfl
+  have eM := (mathmlTIP_eq n).symm
+  have eS := (svgHIP_eq n).symm
+  simp only [isForeignPure, Spec.TreeAlgo.useHtmlRules, Spec.TreeAlgo.isHtmlIntegrationPoint, eX, eA, eM, eS]
+  generalize (n.ns == nsHtml) = A
+  generalize mathmlTextIntegrationPoint n = Mt
+  generalize svgHtmlIntegrationPoint n = Sv
+  generalize (n.ns == nsMathml && isName n.loc "annotation-xml") = X
+  cases tok with
+  | eof => simp [tokKind]
+  | comment t => cases A <;> cases Mt <;> cases Sv <;> cases X <;> simp [tokKind]
+  | nullChar => cases A <;> cases Mt <;> cases Sv <;> cases X <;> cases ip <;> simp [tokKind]
+  | chars st t => cases A <;> cases Mt <;> cases Sv <;> cases X <;> cases ip <;> simp [tokKind]
+  | tag t =>
+    by_cases hk : (t.kind == .startTag) = true
+    · have e1 : (!isOneOf t.name ["mglyph", "malignmark"]) = (t.name != "mglyph".toList && t.name != "malignmark".toList) := by
+        simp only [isOneOf, List.any_cons, List.any_nil, Bool.or_false, Bool.not_or, bne]
+        rw [show ("mglyph".toList == t.name) = (t.name == "mglyph".toList) from BEq.comm,
+          show ("malignmark".toList == t.name) = (t.name == "malignmark".toList) from BEq.comm]
+      have e2 : isName t.name "svg" = (t.name == "svg".toList) := isName_comm _ _
+      simp only [tokKind, hk, if_true, e1, e2]
+      generalize (t.name != "mglyph".toList && t.name != "malignmark".toList) = G
+      generalize (t.name == "svg".toList) = V
+      cases A <;> cases Mt <;> cases Sv <;> cases X <;> cases ip <;> cases G <;> cases V <;> simp
+    · simp only [tokKind, hk]
+      cases A <;> cases Mt <;> cases Sv <;> cases X <;> simp
+
+/-- **(e)** `is_foreign(token)` is the negation of the dispatcher's "process the token according to
+the rules of the current insertion mode": `c` = the adjusted current node, `n` its name, `ip` the
+sink's annotation-xml integration-point flag (= the `encoding` attribute test at creation) -/
+theorem isForeign_query (s : State) (tok : Token) (c : Id) (n : EName) (ip : Bool)
+    (hc : Spec.TreeAlgo.adjustedCurrentNode s.openElems.reverse s.contextElem = some c)
+    (hn : s.dom.elemName c = .ok (n.ns, n.loc))
+    (hip : s.dom.isMathmlAnnotationXmlIntegrationPoint c = .ok ip) :
+    Query (isForeign tok) s (!Spec.TreeAlgo.useHtmlRules (some ⟨toName n, ip⟩) (tokKind tok)) := by
+  rw [← isForeignPure_eq_spec]; exact isForeign_query_pure s tok c n ip hc hn hip
+
+/-- an empty stack: HTML rules (the dispatcher's first clause) -/
+theorem isForeign_empty (s : State) (tok : Token) (h : s.openElems = []) : Query (isForeign tok) s false := by
+  unfold isForeign
+  by_cases he : (tok == Token.eof) = true
+  · simp only [if_pos he]; exact query_pure _ _
+  simp only [if_neg he]
+  refine query_getS_bind (fun tr => ?_)
+  simp only [withTr, h, List.isEmpty_nil, if_true]
+  exact query_pure _ _
 
 end H5V.Lemmas.HtmlTBSpec
